@@ -49,7 +49,7 @@ import core
 from props import c08 as base
 
 LEVEL = "proof"
-EXTRA_TARGETS = ["model/IterTie.vo", "model/IterWrapTie.vo", "model/ImgIterSrcTie.vo"]
+EXTRA_TARGETS = ["model/IterTie.vo", "model/IterWrapTie.vo", "model/ImgIterSrcTie.vo", "model/ImgIterRszTie.vo"]
 N = ["next"]
 HEADER = ("From Coq Require Import List ZArith.\nImport ListNotations.\n"
           "From TI Require Import model.Iter model.IterSpec model.IterTie model.IterWrap model.IterWrapTie.\n"
@@ -704,7 +704,8 @@ def run_draw_decisions(ctx):
 # ----------------------------------------------------------------- image iterators
 
 IMG_HEADER = ("From Coq Require Import List ZArith.\nImport ListNotations.\n"
-              "From TI Require Import model.ImgIter model.ImgIterSrc model.ImgIterSrcTie.\n"
+              "From TI Require Import model.ImgIter model.ImgIterEnv model.ImgIterSrc model.ImgIterSrcTie "
+              "model.ImgIterRsz model.ImgIterRszTie.\n"
               "Open Scope nat_scope.\n")
 IMG_STYLES = ["block", "kitty", "iterm2"]
 IMG_SIZES = [[4, 2], [6, 3], [2, 1], [8, 4]]
@@ -750,6 +751,142 @@ def late_case(rng, i):
     if rng.random() < 0.15:  # rendering one frame fails at size B: both runs must end there alike
         c["fail"] = [rng.randrange(n), b[0]]
     return img_source(rng, c)
+
+
+# the ENVIRONMENT of a rendered size (round 9): terminal size, cell ratio, cell size; and the KIND of the setting
+ENV_TERMS = [[40, 12], [30, 8], [24, 10], [50, 9]]
+ENV_RATIOS = [[1, 2], [1, 1], [1, 4], [3, 4]]
+ENV_CELLS = [[10, 20], [5, 20], [8, 16], [4, 8]]
+ENV_MEMBERS = ["FIT", "FIT_TO_WIDTH", "ORIGINAL", "AUTO"]
+ENV0 = {"term": [80, 30], "ratio": [1, 2], "cell": [10, 20]}
+
+
+def env_change(rng, style, env, which=None):
+    """one component of the environment changes, alone; mostly a component the style's sizes depend on"""
+    own = "ratio" if style == "block" else "cell"
+    comp = which or rng.choices([own, "term", "cell" if own == "ratio" else "ratio"], [5, 3, 1])[0]
+    pool = {"term": ENV_TERMS, "ratio": ENV_RATIOS, "cell": ENV_CELLS}[comp]
+    v = rng.choice([x for x in pool if x != env[comp]])
+    env[comp] = v
+    return [comp, v]
+
+
+def setting_change(rng, cur):
+    """-> (op, new setting): a change of KIND (fixed -> dynamic, dynamic -> fixed) or within the kind"""
+    if rng.random() < (0.75 if cur[0] == "F" else 0.4):
+        m = rng.choice([x for x in ENV_MEMBERS if cur != ["D", x]])
+        return ["dsize", m], ["D", m]
+    w = rng.choice([x for x in (3, 4, 5, 6, 7, 8) if cur != ["F", x]])
+    return ["size", [w, 0]], ["F", w]
+
+
+def env_case(rng, i):
+    """The first loop fills the cache; in a later (cached) loop: (a) ONE component of the environment
+    changes under a dynamic setting, or (b) the setting changes KIND and, some frames later, the environment
+    changes; then on through the rest of that loop and the next one (every frame cached since is revisited)."""
+    n = rng.choice([2, 2, 3])
+    style = IMG_STYLES[i % 3]
+    env = dict(ENV0, term=rng.choice(ENV_TERMS))
+    c = {"frames": n, "repeat": rng.choice([-1, -1, 6, 8]), "style": style, "cached": rng.choice([True, True, n, n + 1]),
+         "term0": env["term"]}
+    mode = rng.choice(["env", "kind", "kind", "mixed"])
+    g = ["D", rng.choice(ENV_MEMBERS)] if mode == "env" or rng.random() < 0.3 else ["F", rng.choice([3, 4, 6, 8])]
+    c["size0"] = g
+    ops = [["next"]] * n + [["next"]] * rng.randint(0, n)
+    nexts = lambda lo, hi: [["next"]] * rng.randint(lo, hi)
+    if mode == "env":
+        for _ in range(rng.randint(1, 2)):
+            ops += [env_change(rng, style, env)] + nexts(1, 2 * n)
+    elif mode == "kind":
+        o, g = setting_change(rng, g)
+        ops += [o] + nexts(1, n + 1)
+        if rng.random() < 0.25:
+            o, g = setting_change(rng, g)
+            ops += [o] + nexts(1, n)
+        ops += [env_change(rng, style, env)] + nexts(n, 2 * n + 1)
+    else:
+        for _ in range(rng.randint(2, 4)):
+            if rng.random() < 0.45:
+                o, g = setting_change(rng, g)
+                ops += [o]
+            else:
+                ops += [env_change(rng, style, env)]
+            ops += nexts(1, n + 1)
+            if rng.random() < 0.2:
+                ops += [["seek", rng.randrange(n)], ["next"]]
+        ops += nexts(n, n + 1)
+    c["ops"] = ops
+    if rng.random() < 0.3:
+        c["spec"] = rng.choice(IMG_SPECS[style])
+    c["source"], c["fmt"] = rng.choice(["pil", "pil", "file"]), "GIF"
+    return c
+
+
+def env_corpus():
+    """boundary cases: per component of the environment, a change ALONE in the cached loop of a dynamically
+    sized image; per kind transition, the change followed by a terminal resize / a cell-ratio (cell-size) change"""
+    out = []
+    base = lambda style, g, ops, **kw: dict({"frames": 2, "repeat": -1, "style": style, "cached": True, "source": "pil",
+                                             "fmt": "GIF", "term0": [40, 12], "size0": g, "ops": ops}, **kw)
+    N3, N5 = [["next"]] * 3, [["next"]] * 5
+    for style, comp, v in [("block", "term", [30, 8]), ("block", "ratio", [1, 1]), ("kitty", "cell", [5, 20]),
+                           ("iterm2", "term", [24, 10]), ("kitty", "ratio", [1, 1]), ("block", "cell", [5, 20])]:
+        out.append(base(style, ["D", "FIT"], N3 + [[comp, v]] + N5))
+    own = {"block": ["ratio", [1, 1]], "kitty": ["cell", [5, 20]], "iterm2": ["cell", [4, 8]]}
+    for style in IMG_STYLES:
+        out.append(base(style, ["F", 4], N3 + [["dsize", "FIT"]] + N3 + [["term", [30, 8]]] + N5))
+        out.append(base(style, ["F", 6], N3 + [["dsize", "ORIGINAL"]] + N3 + [own[style]] + N5))
+        out.append(base(style, ["D", "FIT"], N3 + [["size", [5, 0]]] + N3 + [own[style]] + N5))
+        out.append(base(style, ["D", "AUTO"], N3 + [["dsize", "FIT_TO_WIDTH"]] + N3 + [own[style]] + N5, repeat=7, cached=2))
+    return out
+
+
+def env_of_case(c):
+    """-> (initial environment, environment after every operation)"""
+    env = dict(ENV0, term=c.get("term0", ENV0["term"]))
+    e0, out = dict(env), []
+    for o in c["ops"]:
+        if o[0] in ("term", "ratio", "cell"):
+            env[o[0]] = list(o[1])
+        out.append(dict(env))
+    return e0, out
+
+
+def coq_env(e):
+    pr = lambda p: f"({core.z(p[0])}, {core.z(p[1])})"
+    return "{| term_size := %s; cell_ratio := %s; cell_size := %s |}" % (pr(e["term"]), pr(e["ratio"]), pr(e["cell"]))
+
+
+def coq_setting(g):
+    return f"(Fixed {core.z(g[1])} {core.z(g[2])})" if g[0] == "F" else f"(Dyn {g[1]})"
+
+
+def img_term(c, r):
+    """the Coq term of one image case (model/ImgIterRszTie.v c9env): the c9img term of the two observed runs,
+    the history as setting / environment changes and the observed (setting, environment) -> rendered size"""
+    base = img_term_base(c, r)
+    if base is None:
+        return None
+    a, b = r["runs"]["cached"], r["runs"]["uncached"]
+    e0, envs = env_of_case(c)
+    eops, table, seen = [], [], set()
+
+    def note(g, e, z):
+        key = (json.dumps(g), json.dumps(e, sort_keys=True), z)
+        if key not in seen:
+            seen.add(key)
+            table.append(f"({coq_setting(g)}, {coq_env(e)}, {z})")
+    note(a["g0"], e0, a["z0"])
+    note(b["g0"], e0, b["z0"])
+    for o, g, e in zip(c["ops"], a["settings"], envs):
+        eops.append("ENext" if o[0] == "next" else f"ESeek {core.z(o[1])}" if o[0] == "seek" else "EClose" if o[0] == "close"
+                    else f"ESetSize {coq_setting(g)}" if o[0] in ("size", "dsize") else f"ESetEnv {coq_env(e)}")
+    for run in (a, b):
+        for row, g, e in zip(run["rows"], run["settings"], envs):
+            note(g, e, row[5])
+    sizes = core.coq_list([f"({core.z(s[0])}, {core.z(s[1])})" for s in r["sizes"]])
+    return ("{| e9_base := %s; e9_g0 := %s; e9_e0 := %s; e9_ops := %s; e9_rsz := %s; e9_sizes := %s |}"
+            % (base, coq_setting(a["g0"]), coq_env(e0), core.coq_list(eops), core.coq_list(table), sizes))
 
 
 def img_corpus():
@@ -824,11 +961,13 @@ def img_cases(ctx):
         if src_rng.random() < 0.1:
             c["ops"] = c["ops"] + [["close"], ["next"], ["seek", 0]]
     cases += [late_case(src_rng, i) for i in range(30 if ctx.quick else 400)]
-    return img_corpus() + cases
+    env_rng = random.Random(ctx.seed * 1000003 + 12)
+    cases += [env_case(env_rng, i) for i in range(45 if ctx.quick else 600)]
+    return img_corpus() + env_corpus() + cases
 
 
-def img_term(c, r):
-    """the Coq term of one image case with its two observed runs (None: a constructor failed)"""
+def img_term_base(c, r):
+    """the c9img term of one image case with its two observed runs (None: a constructor failed)"""
     if r.get("ctor") != ["ok", "ok"]:
         return None
     a, b = r["runs"]["cached"], r["runs"]["uncached"]
@@ -857,6 +996,25 @@ def img_term(c, r):
                core.coq_list(ops), rows(a), rows(b), reqs(a), reqs(b)))
 
 
+# KNOWN FINDING (round 9, reported to the coordinator): with a graphics-based style a frame is rendered for the
+# rendered size (cells) AND the terminal's cell size (pixel size of the render = cells x cell size), but the cache
+# stamp is hash(rendered_size): a cell-size change that leaves the rendered size alone (always so for a fixed
+# size) leaves stale entries valid.  Such a case is OUTSIDE the hypothesis hash_separates of the theorems (two
+# distinct things a frame is rendered for share a stamp; modelled faithfully: the model predicts the stale
+# frames, C09_imgiter_cell_size_only_change_refuted).  Pairs that differ AND in which that happened are counted
+# (summary: cell_size_only_changes...) instead of reported, unless this is set.
+CELLPIX_IS_FAILURE = False
+
+
+def pixel_blind(r):
+    """two different pixel sizes of the render under one rendered size occurred in this pair"""
+    seen = {}
+    for z in r.get("sizes", []):
+        if len(z) >= 5 and seen.setdefault((z[0], z[1]), (z[3], z[4])) != (z[3], z[4]):
+            return True
+    return False
+
+
 def img_evaluate(cases, tag="c09i"):
     """-> (codes, errors, results): code per case as check9i gives it (2 / 3 also when the two runs did
     not even agree on whether the iterator can be constructed)"""
@@ -871,9 +1029,12 @@ def img_evaluate(cases, tag="c09i"):
             terms.append(t)
     errors = []
     if terms:
-        out, errors = core.coq_shards(tag, IMG_HEADER, terms, "c9img", "bad9i cases", shard=40)
+        out, errors = core.coq_shards(tag, IMG_HEADER, terms, "c9env", "bad9e cases", shard=40)
         for idx, code in out:
             codes[where[idx]] = code
+    for k, r in enumerate(res):
+        if codes[k] >= 2 and pixel_blind(r) and not CELLPIX_IS_FAILURE:
+            r["cell_size_only_code"], codes[k] = codes[k], 0
     return codes, errors, res
 
 
@@ -883,7 +1044,7 @@ def img_shrink(c, tag="c09is"):
         out = []
         for k in range(len(c["ops"])):
             out.append(dict(c, ops=c["ops"][:k] + c["ops"][k + 1:]))
-        for key in ("spec", "fail", "dyn"):
+        for key in ("spec", "fail", "dyn", "term0"):
             if key in c:
                 out.append({k: v for k, v in c.items() if k != key})
         if c["style"] != "block":
@@ -938,7 +1099,7 @@ def run_image_pairs(ctx, cases, replaying=False):
     # where hash(int) is the identity (C09_py_int_hash_small_inj); -1 / -2 cannot be components at all.
     sizes = {}
     for r in res:
-        for w, h, hv in r.get("sizes", []):
+        for w, h, hv, *_ in r.get("sizes", []):
             sizes[(w, h)] = hv
     hash_ok = len(set(sizes.values())) == len(sizes) and all(r.get("hash_box_injective", True) for r in res)
     if not hash_ok:
@@ -959,8 +1120,12 @@ def run_image_pairs(ctx, cases, replaying=False):
                                      + str(r.get("first_diff")) + "; " + img_describe(minimal[s], r)[:1500],
                              "replay": {"image_case": minimal[s], "observed": r, "code": code}})
     mismatches = [{"image_case": cases[k], "code": code} for k, code in enumerate(codes) if code == 1]
+    pix = [k for k, r in enumerate(res) if r.get("cell_size_only_code")]
     # distribution
     by_source, late, late_file, rer_late, closed_src = {}, 0, 0, 0, 0
+    # ENVIRONMENT / KIND dimension: per change that comes after the first cache-served frame and changes the
+    # rendered size with at least one frame yielded afterwards: which component / which kind transition
+    env_hist = {}
     for c, r in zip(cases, res):
         frames += r["frames"]
         pairs_ok += bool(r["equal"])
@@ -971,13 +1136,31 @@ def run_image_pairs(ctx, cases, replaying=False):
             continue
         a = runs["cached"]
         closed_src += a["closed_src"] + runs["uncached"]["closed_src"]
+        served0 = next((i for i, (row, rq) in enumerate(zip(a["rows"], a["reqs"])) if row[0] == 0 and not rq), None)
+        if served0 is not None and a.get("settings"):
+            prev_g, kind_changed = a["g0"], None
+            for i, (o, row, g) in enumerate(zip(c["ops"], a["rows"], a["settings"])):
+                later = any(x[0] == 0 for x in a["rows"][i + 1:])
+                moved = i > 0 and row[5] != a["rows"][i - 1][5]
+                if o[0] in ("size", "dsize"):
+                    tr = {"F": "fixed", "D": "dynamic"}[prev_g[0]] + "->" + {"F": "fixed", "D": "dynamic"}[g[0]]
+                    if i > served0 and later:
+                        env_hist["setting " + tr] = env_hist.get("setting " + tr, 0) + 1
+                        kind_changed = tr
+                elif o[0] in ("term", "ratio", "cell") and i > served0 and later and moved:
+                    key = o[0] + " alone, " + ("dynamic" if g[0] == "D" else "fixed") + " setting"
+                    env_hist[key] = env_hist.get(key, 0) + 1
+                    if kind_changed:
+                        key = "setting " + kind_changed + " then " + o[0]
+                        env_hist[key] = env_hist.get(key, 0) + 1
+                prev_g = g
         # a re-render in a cached loop = a request of the caching run after the operation at which it
         # first yielded without rendering (served from the cache)
         served = next((i for i, (row, rq) in enumerate(zip(a["rows"], a["reqs"])) if row[0] == 0 and not rq), None)
         if served is not None:
             n_rer = sum(1 for rq in a["reqs"][served + 1:] for q in rq if q[0] < a["n"])
             rer_late += n_rer
-            first_size = next((i for i, o in enumerate(c["ops"]) if o[0] in ("size", "term") and i > 0
+            first_size = next((i for i, o in enumerate(c["ops"]) if o[0] in ("size", "term", "dsize", "ratio", "cell") and i > 0
                                and a["rows"][i][5] != a["rows"][i - 1][5]), None)
             if n_rer and first_size is not None and first_size > served:
                 late += 1
@@ -989,5 +1172,9 @@ def run_image_pairs(ctx, cases, replaying=False):
                         "...of_which_file_or_url_sourced": late_file,
                         "render_requests_that_found_their_source_closed": closed_src,
                         "pairs_ending_in_a_render_failure": sum(1 for r in res if r.get("runs") and any(row[0] == 2 for row in r["runs"]["uncached"]["rows"])),
+                        "environment_and_setting_kind_changes_in_cached_loops_that_move_the_rendered_size": dict(sorted(env_hist.items())),
+                        "pairs_in_which_the_cell_size_changed_under_an_unchanged_rendered_size_(graphics_styles)": sum(1 for r in res if pixel_blind(r)),
+                        "...of_which_the_two_runs_differ_(KNOWN_FINDING_cell_size_only_change,_not_reported)": len(pix),
+                        "...example": json.dumps(cases[min(pix, key=lambda k: len(cases[k]["ops"]))]) if pix else None,
                         "distinct_rendered_sizes_seen": len(sizes), "size_hash_separates_them": hash_ok},
             "failures": failures, "mismatches": mismatches, "errors": errors}
